@@ -12,6 +12,7 @@ from rules import prims
 BUF = ("sym", "BUFFER")
 DL = ("sym", "DIRTY")
 PEN = ("sym", "PEN")
+TABS = ("sym", "TABS")
 
 
 class HandlerInterp(prims.VecInterp):
@@ -20,14 +21,27 @@ class HandlerInterp(prims.VecInterp):
         self.events = []
 
     def call_fn(self, path, args):
-        if args and args[0] in (BUF, DL):
-            self.events.append((path, list(args[1:]), "buffer" if args[0] == BUF else "dirty"))
+        if args and args[0] in (BUF, DL, TABS):
+            self.events.append((path, list(args[1:]), "buffer" if args[0] == BUF else "dirty" if args[0] == DL else "tabs"))
             out = (self.facts.fns.get(path, {}).get("output") or {}).get("s", "()")
             return ("t", ()) if out == "()" else ("sym", "result of " + path)
         return super().call_fn(path, args)
 
 
+_DS = {}
+
+
 def default_state(w, S, R, cols, rows):
+    k = (id(w), cols, rows)
+    if k not in _DS:
+        _DS[k] = _default_state(w, S, R, cols, rows)
+    out = {}
+    for nm, v in _DS[k].items():
+        out[nm] = ("obj", v[1], dict(v[2])) if isinstance(v, tuple) and v and v[0] == "obj" else v
+    return out
+
+
+def _default_state(w, S, R, cols, rows):
     """The constructor's state (scalars evaluated, containers opaque) for a cols x rows terminal."""
     from rules import c19
     ctors = c19.constructor_of(w, S.term_ty)
@@ -69,6 +83,8 @@ def terminal_obj(w, S, R, cols, rows, col, row, **over):
     st[S.active_buffer] = BUF
     st[S.dirty_field] = DL
     st[R["pen"]] = PEN
+    if over.pop("opaque_tabs", False):
+        st[R["tabs"]] = TABS
     cur = st.get(R["cursor"])
     if not (isinstance(cur, tuple) and cur[0] == "obj"):
         raise H.Unsupported("cursor default")
@@ -195,3 +211,106 @@ def wrap_mark_semantics(w, S, R, fn, ch=120):
                                     if new_line is old_line:
                                         return False, "%s: the cursor row is marked soft-wrapped but the cursor is still on it afterwards (it never left the row)" % desc
     return True, n
+
+
+CURSOR_SPEC = {
+    # variant: (kind, number of parameters)
+    "Cuu": ("up", 1), "Cud": ("down", 1), "Cuf": ("right", 1), "Cub": ("left", 1), "Cnl": ("down0", 1), "Cpl": ("up0", 1),
+    "Vpr": ("down", 1), "Cha": ("col", 1), "Vpa": ("row", 1), "Cup": ("rowcol", 2), "Bs": ("left1", 0), "Cr": ("cr", 0),
+}
+
+
+def cursor_semantics(w, S, R, full=False):
+    """The pure cursor commands evaluated on a 5x5 terminal for every valid margin pair, origin mode on/off, every
+    start position incl. the wrap-pending column and parameter values 0,1,2,4,9: the resulting cursor is the one the
+    C05 statement prescribes, wrap-pending is cleared, the buffer is not touched, nothing else changes.
+    -> (True, cases) | (False, what); raises Unsupported outside the fragment."""
+    C, Rr = 5, 5
+    n_cases = 0
+    margins = sorted({(t, b) for t in range(Rr) for b in range(t + 1, Rr)}) if full else [(0, 4), (1, 3), (0, 2), (2, 4), (1, 2)]
+    params = (0, 1, 2, 4, 9) if full else (0, 1, 3, 9)
+    for variant, (kind, arity) in sorted(CURSOR_SPEC.items()):
+        hs = w.handler(variant)
+        if not hs:
+            continue
+        h = hs[0]
+        if len(w.facts.fns[h].get("inputs", [])) != arity + 1:
+            raise H.Unsupported("handler %s has %d parameters" % (h, len(w.facts.fns[h].get("inputs", [])) - 1))
+        argsets = [[]] if arity == 0 else [[a] for a in params] if arity == 1 else [[a, b] for a in params for b in params]
+        for (tm, bm) in margins:
+            for om in (False, True):
+                for row in range(Rr):
+                    for col in range(C + 1):
+                      for aw in ((True, False) if col == C else (True,)):      # a pending wrap survives DECAWM being switched off
+                        for args in argsets:
+                            over = {R["top_margin"]: tm, R["bottom_margin"]: bm, R["origin_mode"]: om, R["pending_wrap"]: col == C, R["auto_wrap_mode"]: aw}
+                            ev, me = run_handler(w, S, R, h, list(args), C, Rr, col, row, **over)
+                            st = me[2]
+                            cur = st[R["cursor"]][2]
+                            n_cases += 1
+                            c0 = min(col, C - 1)
+                            n1 = max(args[0], 1) if args else 1
+                            wc, wr = c0, row
+                            if kind in ("up", "up0"):
+                                wr = max(row - n1, tm if row >= tm else 0)
+                            elif kind in ("down", "down0"):
+                                wr = min(row + n1, bm if row <= bm else Rr - 1)
+                            elif kind == "right":
+                                wc = min(c0 + n1, C - 1)
+                            elif kind in ("left", "left1"):
+                                wc = max(c0 - n1, 0)
+                            elif kind == "col":
+                                wc = min(n1 - 1, C - 1)
+                            if kind in ("up0", "down0", "cr"):
+                                wc = 0
+                            if kind in ("row", "rowcol"):
+                                r1 = max(args[0], 1) - 1
+                                wr = min(tm + r1, bm) if om else min(r1, Rr - 1)
+                            if kind == "rowcol":
+                                wc = min(max(args[1], 1) - 1, C - 1)
+                            desc = "%s%s on %dx%d, margins %d..%d, origin mode %s, auto-wrap %s, from (%d,%d)" % (variant, tuple(args), C, Rr, tm, bm, "on" if om else "off", "on" if aw else "off", col, row)
+                            if [e for e in ev if e[2] == "buffer"]:
+                                return False, "%s touches the buffer (%s)" % (desc, [e[0] for e in ev if e[2] == "buffer"])
+                            if (cur["col"], cur["row"]) != (wc, wr):
+                                return False, "%s ends at (%s,%s), the statement prescribes (%d,%d)" % (desc, cur["col"], cur["row"], wc, wr)
+                            if st[R["pending_wrap"]] is not False:
+                                return False, "%s leaves wrap-pending set" % desc
+                            for k in ("top_margin", "bottom_margin", "origin_mode"):
+                                if st[R[k]] != over[R[k]]:
+                                    return False, "%s changes %s" % (desc, k)
+    return True, n_cases
+
+
+def accessor_semantics(w, S, R):
+    """Vt::lines / Vt::view (through the terminal) evaluated on a symbolic terminal: lines() is the WHOLE line vector of
+    the active buffer (scrollback + view, nothing hidden), view() its last `rows` lines - whatever the configured limit.
+    -> (True, n) | (False, what)"""
+    import world as WD2
+    E = w.E
+    out_n = 0
+    for api, kind in (("vt::Vt::lines", "all"), ("vt::Vt::view", "view")):
+        if api not in w.bodies:
+            raise H.Unsupported(api)
+        tf = [cs.callee for cs in E.call_sites(api) if cs.local and S._impl_of(cs.callee) == S.term_ty]
+        if len(tf) != 1:
+            raise H.Unsupported("terminal accessor behind %s" % api)
+        lim_fields = [f["name"] for f in w.facts.struct_fields(S.term_ty) if f["ty"]["s"] == "core::option::Option<usize>"]
+        for lim in (H.NONE_V, H.some(0), H.some(1)):
+            for sb in (0, 1, 3):
+                me = symbolic_terminal(w, S, R, 2, 2, 0, 0, sb=sb)
+                for lf in lim_fields:
+                    me[2][lf] = lim
+                it = prims.VecInterp(w.facts)
+                r = it.call_fn(tf[0], [me])
+                if isinstance(r, prims.View):
+                    got = r.get()
+                elif isinstance(r, prims.Vec):
+                    got = r.items
+                else:
+                    raise H.Unsupported("accessor result %r" % (r,))
+                all_lines = me[2][S.active_buffer][2][S.lines_field].items
+                want = all_lines if kind == "all" else all_lines[len(all_lines) - 2:]
+                out_n += 1
+                if [id(x) for x in got] != [id(x) for x in want]:
+                    return False, "%s with %d scrollback line(s), limit %s returns %d line(s); expected %s" % (api, sb, "None" if lim == H.NONE_V else lim[2][0], len(got), "all %d lines of the active buffer" % len(all_lines) if kind == "all" else "the last 2 (the view)")
+    return True, out_n
